@@ -6,7 +6,7 @@ import tempfile
 
 from mc.oracle import html_tree
 
-ALPHABET = ["<", ">", "&", '"', "'", "`", "script", " style=", " onerror=", "</div>", "</style>", "x", "\u0338"]
+ALPHABET = ["<", ">", "&", '"', "'", "`", "script", " style=", " onerror=", "</div>", "</style>", "x", "\u0338", "\\", "\\074", "\\g<1>"]
 BENIGN = "benign"
 CLI_SLOTS = ["selector", "file", "bg", "original_text", "tuned_text"]
 API_SLOTS = ["fg", "bg", "tuned_fg", "selector", "file"]
